@@ -909,19 +909,24 @@ theorem ilr_eq_dot (x : List ℝ) :
   have hN : x.length - 1 + 1 = x.length := by omega
   rw [clr_range, ubasisRow_eq, hN, dot_range_map]
 
-/-- The argument of `clrInv` in `ilrInv`, as a `range`-indexed list of finite sums. -/
-theorem ilrInv_eq (y : List ℝ) :
-    ilrInv realA y = clrInv realA ((List.range (y.length + 1)).map (fun j =>
-      ∑ k ∈ range y.length, y.getD k 0 * ub (k + 1) j)) := by
-  unfold ilrInv
-  simp only
-  congr 1
+/-- The linear combination `Σ_k y_k · u_k` of `ilrInv`, as a `range`-indexed list of finite sums. -/
+theorem ilrInv_arg_eq (y : List ℝ) :
+    (List.range (y.length + 1)).map (fun j =>
+      lsum ((List.range y.length).map (fun k =>
+        y.getD k 0 * (ubasisRow realA y.length (k + 1)).getD j 0)))
+    = (List.range (y.length + 1)).map (fun j =>
+      ∑ k ∈ range y.length, y.getD k 0 * ub (k + 1) j) := by
   apply List.map_congr_left
   intro j hj
   have hj' : j ≤ y.length := by
     have := List.mem_range.mp hj; omega
   rw [lsum_eq_sum, sum_range_map]
   exact sum_congr rfl (fun k _ => by rw [ubasisRow_getD _ _ _ hj'])
+
+theorem ilrInv_eq (y : List ℝ) :
+    ilrInv realA y = clrInv realA ((List.range (y.length + 1)).map (fun j =>
+      ∑ k ∈ range y.length, y.getD k 0 * ub (k + 1) j)) := by
+  rw [← ilrInv_arg_eq]; rfl
 
 /-- `clr x = Σ_k ilr(x)_k · u_k`. -/
 theorem sum_ilr_ubasis (x : List ℝ) (hne : x ≠ []) :
@@ -983,5 +988,396 @@ theorem ilrInv_simplex (y : List ℝ) :
   exact ⟨by rw [h1]; simp, h2, h3⟩
 
 end Ilr
+
+/-! ## `ilr` is an isometry -/
+
+section Isometry
+open Finset
+
+theorem sum_centred (x : List ℝ) : ∑ j ∈ range x.length, (Lg x j - logGM realA x) = 0 := by
+  have := clr_sum x
+  rwa [clr_range, sum_range_map] at this
+
+/-- The Aitchison inner product is the Euclidean inner product of the ilr coordinates. -/
+theorem ainner_eq_dot_ilr (x y : List ℝ) (hlen : x.length = y.length) :
+    ainner realA x y = dot (ilr realA x) (ilr realA y) := by
+  show dot (clr realA x) (clr realA y) = _
+  rcases Nat.eq_zero_or_pos x.length with h0 | hpos
+  · have hx : x = [] := List.length_eq_zero_iff.mp h0
+    have hy : y = [] := List.length_eq_zero_iff.mp (hlen ▸ h0)
+    subst hx; subst hy
+    simp [dot, clr, ilr, lsum]
+  obtain ⟨n, hn⟩ : ∃ n, x.length = n + 1 := ⟨x.length - 1, by omega⟩
+  have hn' : y.length = n + 1 := hlen ▸ hn
+  have sx := sum_centred x
+  have sy := sum_centred y
+  rw [clr_range, clr_range, ilr_eq_clr, ilr_eq_clr]
+  rw [hn] at sx ⊢
+  rw [hn'] at sy ⊢
+  rw [Nat.add_sub_cancel, dot_range_map, dot_range_map, parseval, sx, sy]
+  simp
+
+theorem getD_lt {l : List ℝ} {j : ℕ} (h : j < l.length) : l.getD j 0 = l[j] := by
+  rw [List.getD_eq_getElem?_getD, List.getElem?_eq_getElem h]; rfl
+
+theorem getD_pos {l : List ℝ} (hl : ∀ v ∈ l, 0 < v) {j : ℕ} (h : j < l.length) :
+    0 < l.getD j 0 := by
+  rw [getD_lt h]; exact hl _ (List.getElem_mem h)
+
+/-- clr of a vector whose logs are `a_j − c`. -/
+theorem clr_of_Lg (w : List ℝ) (a : ℕ → ℝ) (c : ℝ) (h : ∀ j, j < w.length → Lg w j = a j - c) :
+    clr realA w = (List.range w.length).map (fun j =>
+      a j - (∑ j ∈ range w.length, a j) / (w.length : ℝ)) := by
+  rw [clr_range, logGM_eq_sum]
+  rcases Nat.eq_zero_or_pos w.length with h0 | hpos
+  · rw [h0]; simp
+  have hN : (w.length : ℝ) ≠ 0 := by
+    have : w.length ≠ 0 := by omega
+    exact_mod_cast this
+  apply List.map_congr_left
+  intro j hj
+  have hj' := List.mem_range.mp hj
+  have e : ∀ j ∈ range w.length, Lg w j = a j - c := fun j hj => h j (mem_range.mp hj)
+  rw [sum_congr rfl e, sum_sub_distrib, sum_const, card_range, nsmul_eq_mul, h j hj']
+  field_simp
+  ring
+
+theorem Lg_map_div (u : List ℝ) (S : ℝ) (hS : 0 < S) (hu : ∀ v ∈ u, 0 < v) (j : ℕ)
+    (hj : j < u.length) : Lg (u.map (· / S)) j = Lg u j - Real.logb 2 S := by
+  unfold Lg
+  rw [getD_lt (by simpa using hj), List.getElem_map, getD_lt hj,
+    log_div (hu _ (List.getElem_mem hj)) hS]
+
+theorem clr_perturbation (x y : List ℝ) (hne : x ≠ []) (hlen : x.length = y.length)
+    (hx : ∀ v ∈ x, 0 < v) (hy : ∀ v ∈ y, 0 < v) :
+    clr realA (perturbation x y) = List.zipWith (· + ·) (clr realA x) (clr realA y) := by
+  have hzl : (List.zipWith (· * ·) x y).length = x.length := by
+    rw [List.length_zipWith, ← hlen]; simp
+  have hzpos : ∀ v ∈ List.zipWith (· * ·) x y, 0 < v := by
+    intro v hv
+    rcases List.mem_iff_getElem.mp hv with ⟨i, hi, rfl⟩
+    rw [List.getElem_zipWith]
+    exact mul_pos (hx _ (List.getElem_mem _)) (hy _ (List.getElem_mem _))
+  have hzne : List.zipWith (· * ·) x y ≠ [] := by
+    intro e; rw [e] at hzl; exact hne (List.length_eq_zero_iff.mp hzl.symm)
+  have hS : 0 < (List.zipWith (· * ·) x y).sum := sum_pos_of_pos hzne hzpos
+  have hL : ∀ j, j < (perturbation x y).length →
+      Lg (perturbation x y) j = (Lg x j + Lg y j) - Real.logb 2 (List.zipWith (· * ·) x y).sum := by
+    intro j hj
+    have hj' : j < x.length := by
+      rw [perturbation, closure_length, hzl] at hj; exact hj
+    have hj'' : j < y.length := hlen ▸ hj'
+    rw [perturbation, closure_eq, Lg_map_div _ _ hS hzpos j (by omega)]
+    congr 1
+    unfold Lg
+    rw [getD_lt (by omega), List.getElem_zipWith, getD_lt hj', getD_lt hj'',
+      log_mul (hx _ (List.getElem_mem _)) (hy _ (List.getElem_mem _))]
+  have hpl : (perturbation x y).length = x.length := by
+    rw [perturbation, closure_length, hzl]
+  rw [clr_of_Lg _ _ _ hL, hpl, clr_range x, clr_range y, ← hlen, zipWith_range_map,
+    logGM_eq_sum, logGM_eq_sum, ← hlen, sum_add_distrib]
+  apply List.map_congr_left
+  intro j _
+  ring
+
+theorem clr_powering (x : List ℝ) (a : ℝ) (hne : x ≠ []) (hx : ∀ v ∈ x, 0 < v) :
+    clr realA (powering realA x a) = (clr realA x).map (a * ·) := by
+  have hml : (x.map (fun v => realA.pow v a)).length = x.length := by simp
+  have hmpos : ∀ v ∈ x.map (fun v => realA.pow v a), 0 < v := by
+    intro v hv
+    rcases List.mem_map.mp hv with ⟨u, hu, rfl⟩
+    exact Real.rpow_pos_of_pos (hx u hu) a
+  have hS : 0 < (x.map (fun v => realA.pow v a)).sum :=
+    sum_pos_of_pos (by simpa using hne) hmpos
+  have hpl : (powering realA x a).length = x.length := by
+    rw [powering, closure_length, hml]
+  have hL : ∀ j, j < (powering realA x a).length →
+      Lg (powering realA x a) j = a * Lg x j - Real.logb 2 (x.map (fun v => realA.pow v a)).sum := by
+    intro j hj
+    rw [hpl] at hj
+    rw [powering, closure_eq, Lg_map_div _ _ hS hmpos j (by omega)]
+    congr 1
+    unfold Lg
+    rw [getD_lt (by omega), List.getElem_map, getD_lt hj]
+    exact Real.logb_rpow_eq_mul_logb_of_pos (hx _ (List.getElem_mem hj))
+  rw [clr_of_Lg _ _ _ hL, hpl, clr_range x, List.map_map, logGM_eq_sum, ← mul_sum]
+  apply List.map_congr_left
+  intro j _
+  simp only [Function.comp]
+  ring
+
+theorem ilr_of_clr (p : List ℝ) (c : ℕ → ℝ) (h : clr realA p = (List.range p.length).map c) :
+    ilr realA p = (List.range (p.length - 1)).map (fun k =>
+      ∑ j ∈ range p.length, c j * ub (k + 1) j) := by
+  rw [ilr_eq_clr]
+  apply List.map_congr_left
+  intro k _
+  apply sum_congr rfl
+  intro j hj
+  have hj' := mem_range.mp hj
+  have : (clr realA p).getD j 0 = c j := by rw [h, getD_range_map _ hj']
+  rw [clr_range, getD_range_map _ hj'] at this
+  rw [this]
+
+/-- ilr turns perturbation by the inverse into subtraction. -/
+theorem ilr_sub (x y : List ℝ) (hne : x ≠ []) (hlen : x.length = y.length)
+    (hx : ∀ v ∈ x, 0 < v) (hy : ∀ v ∈ y, 0 < v) :
+    ilr realA (perturbation x (powering realA y (-1)))
+      = List.zipWith (· - ·) (ilr realA x) (ilr realA y) := by
+  have hney : y ≠ [] := by
+    intro e; rw [e] at hlen; exact hne (List.length_eq_zero_iff.mp hlen)
+  obtain ⟨hql, hqpos, _⟩ := powering_simplex hney hy (-1)
+  have hlen' : x.length = (powering realA y (-1)).length := by rw [hql, hlen]
+  obtain ⟨hpl, _, _⟩ := perturbation_simplex hne hlen' hx hqpos
+  have hc : clr realA (perturbation x (powering realA y (-1)))
+      = (List.range (perturbation x (powering realA y (-1))).length).map (fun j =>
+          (Lg x j - logGM realA x) + (-1) * (Lg y j - logGM realA y)) := by
+    rw [clr_perturbation x _ hne hlen' hx hqpos, clr_powering y (-1) hney hy, clr_range x,
+      clr_range y, List.map_map, ← hlen, zipWith_range_map, hpl]
+    rfl
+  rw [ilr_of_clr _ _ hc, hpl, ilr_eq_clr x, ilr_eq_clr y, ← hlen, zipWith_range_map]
+  apply List.map_congr_left
+  intro k _
+  rw [← sum_sub_distrib]
+  exact sum_congr rfl (fun j _ => by ring)
+
+theorem adist_eq (x y : List ℝ) (hne : x ≠ []) (hlen : x.length = y.length)
+    (hx : ∀ v ∈ x, 0 < v) (hy : ∀ v ∈ y, 0 < v) :
+    adist realA x y = Real.sqrt (dot (List.zipWith (· - ·) (ilr realA x) (ilr realA y))
+      (List.zipWith (· - ·) (ilr realA x) (ilr realA y))) := by
+  show Real.sqrt (ainner realA _ _) = _
+  rw [ainner_eq_dot_ilr _ _ rfl, ilr_sub x y hne hlen hx hy]
+
+end Isometry
+
+/-! ## `snapNum` and `downsample` -/
+
+section Downsample
+variable {α : Type} [Field α] [LinearOrder α] [IsStrictOrderedRing α]
+
+/-- The fold of `snapNum`: the last `k < n` with `P k`, or `0`. -/
+def lastSat (P : ℕ → Prop) [DecidablePred P] (n : ℕ) : ℕ :=
+  (List.range n).foldl (fun best k => if P k then k else best) 0
+
+theorem lastSat_succ (P : ℕ → Prop) [DecidablePred P] (n : ℕ) :
+    lastSat P (n + 1) = if P n then n else lastSat P n := by
+  unfold lastSat
+  rw [List.range_succ, List.foldl_append]; rfl
+
+theorem lastSat_le (P : ℕ → Prop) [DecidablePred P] (n : ℕ) : lastSat P (n + 1) ≤ n := by
+  induction n with
+  | zero => rw [lastSat_succ]; split <;> simp [lastSat]
+  | succ n ih => rw [lastSat_succ]; split <;> omega
+
+theorem lastSat_sat (P : ℕ → Prop) [DecidablePred P] (h0 : P 0) (n : ℕ) : P (lastSat P n) := by
+  induction n with
+  | zero => simpa [lastSat] using h0
+  | succ n ih => rw [lastSat_succ]; split <;> assumption
+
+theorem lastSat_max (P : ℕ → Prop) [DecidablePred P] (n k : ℕ) (hk : k < n) (hP : P k) :
+    k ≤ lastSat P n := by
+  induction n with
+  | zero => omega
+  | succ n ih =>
+    rw [lastSat_succ]
+    split
+    · omega
+    · rename_i hn
+      have : k ≠ n := fun e => hn (e ▸ hP)
+      exact ih (by omega)
+
+theorem snapNum_eq (m : ℕ) (p : α) :
+    snapNum (Nat.cast : ℕ → α) m p =
+      (let lower := lastSat (fun k : ℕ => (k : α) / (m : α) ≤ p) (m + 1)
+       let upper := if lower < m then lower + 1 else lower
+       if (upper : α) / (m : α) - p < p - (lower : α) / (m : α) then upper else lower) := rfl
+
+theorem ite_le_of {c : Prop} [Decidable c] {a b n : ℕ} (ha : a ≤ n) (hb : b ≤ n) :
+    (if c then a else b) ≤ n := by
+  split <;> assumption
+
+theorem snapNum_le (m : ℕ) (p : α) : snapNum (Nat.cast : ℕ → α) m p ≤ m := by
+  rw [snapNum_eq]
+  have hl := lastSat_le (fun k : ℕ => (k : α) / (m : α) ≤ p) m
+  set lower := lastSat (fun k : ℕ => (k : α) / (m : α) ≤ p) (m + 1) with hlow
+  simp only
+  by_cases hlm : lower < m
+  · rw [if_pos hlm]; exact ite_le_of (by omega) hl
+  · rw [if_neg hlm]; exact ite_le_of hl hl
+
+theorem cast_div_le_iff (m : ℕ) (hm : 1 ≤ m) (a b : ℕ) :
+    (a : α) / (m : α) ≤ (b : α) / (m : α) ↔ a ≤ b := by
+  have hm' : (0 : α) < (m : α) := by exact_mod_cast hm
+  rw [div_le_div_iff_of_pos_right hm', Nat.cast_le]
+
+/-- A value at most the grid point `K/m` is never snapped above it. -/
+theorem snapNum_le_of_le (m : ℕ) (hm : 1 ≤ m) (p : α) (hp : 0 ≤ p) (K : ℕ)
+    (hpK : p ≤ (K : α) / (m : α)) : snapNum (Nat.cast : ℕ → α) m p ≤ K := by
+  rw [snapNum_eq]
+  have hm' : (0 : α) < (m : α) := by exact_mod_cast hm
+  set lower := lastSat (fun k : ℕ => (k : α) / (m : α) ≤ p) (m + 1) with hlow
+  have hsat : (lower : α) / (m : α) ≤ p :=
+    lastSat_sat (fun k : ℕ => (k : α) / (m : α) ≤ p) (by simpa using hp) (m + 1)
+  have hlK : lower ≤ K := (cast_div_le_iff m hm lower K).mp (le_trans hsat hpK)
+  simp only
+  by_cases hlm : lower < m
+  · rw [if_pos hlm]
+    by_cases hlt : ((lower + 1 : ℕ) : α) / (m : α) - p < p - (lower : α) / (m : α)
+    · rw [if_pos hlt]
+      by_contra hcon
+      have e : lower = K := by omega
+      have hpe : p = (lower : α) / (m : α) := le_antisymm (by rw [e]; exact hpK) hsat
+      have h1 : ((lower + 1 : ℕ) : α) / (m : α) - p = 1 / (m : α) := by
+        rw [hpe]; push_cast; ring
+      have h2 : p - (lower : α) / (m : α) = 0 := by rw [hpe]; ring
+      rw [h1, h2] at hlt
+      have : (0 : α) < 1 / (m : α) := by positivity
+      exact absurd hlt (not_lt.mpr (le_of_lt this))
+    · rw [if_neg hlt]; exact hlK
+  · rw [if_neg hlm]
+    exact ite_le_of hlK hlK
+
+/-- A grid point is snapped to itself. -/
+theorem snapNum_grid (m : ℕ) (hm : 1 ≤ m) (K : ℕ) (hK : K ≤ m) :
+    snapNum (Nat.cast : ℕ → α) m ((K : α) / (m : α)) = K := by
+  rw [snapNum_eq]
+  have hm' : (0 : α) < (m : α) := by exact_mod_cast hm
+  set lower := lastSat (fun k : ℕ => (k : α) / (m : α) ≤ (K : α) / (m : α)) (m + 1) with hlow
+  have hsat : (lower : α) / (m : α) ≤ (K : α) / (m : α) :=
+    lastSat_sat (fun k : ℕ => (k : α) / (m : α) ≤ (K : α) / (m : α))
+      (by simp only [Nat.cast_zero, zero_div]; positivity) (m + 1)
+  have h1 : lower ≤ K := (cast_div_le_iff m hm lower K).mp hsat
+  have h2 : K ≤ lower :=
+    lastSat_max (fun k : ℕ => (k : α) / (m : α) ≤ (K : α) / (m : α)) (m + 1) K (by omega) le_rfl
+  have e : lower = K := by omega
+  simp only
+  rw [e, sub_self]
+  have hU : (K : α) / (m : α) ≤ ((if K < m then K + 1 else K : ℕ) : α) / (m : α) := by
+    rw [cast_div_le_iff m hm]; split <;> omega
+  rw [if_neg (not_lt.mpr (sub_nonneg.mpr hU))]
+
+theorem sum_map_zero' {β : Type} (l : List β) : (l.map (fun _ => (0 : α))).sum = 0 := by
+  induction l with
+  | nil => rfl
+  | cons a l ih => simp
+
+theorem downsampleGo_length (m fuel : ℕ) (xs : List α) (prev : α) :
+    (downsampleGo (Nat.cast : ℕ → α) m fuel xs prev).length = xs.length := by
+  induction fuel generalizing xs prev with
+  | zero => rw [downsampleGo]
+  | succ fuel ih =>
+    match xs with
+    | [] => rw [downsampleGo]
+    | [p] => rw [downsampleGo]
+    | p :: q :: rest =>
+      rw [downsampleGo]
+      · simp only [List.length_cons, ih]
+        split <;> simp
+      · simp
+
+/-- Invariant of the `downsample` loop: with the snapped prefix worth `P/m` and the rest a
+non-negative vector completing it to 1, the output lies on the grid and completes `P/m` to 1. -/
+theorem downsampleGo_spec (m : ℕ) (hm : 1 ≤ m) (fuel : ℕ) (xs : List α) (P : ℕ)
+    (hfuel : xs.length ≤ fuel) (hP : P ≤ m) (hnn : ∀ v ∈ xs, 0 ≤ v)
+    (hsum : (P : α) / (m : α) + xs.sum = 1) :
+    (downsampleGo (Nat.cast : ℕ → α) m fuel xs ((P : α) / (m : α))).length = xs.length ∧
+    (∀ v ∈ downsampleGo (Nat.cast : ℕ → α) m fuel xs ((P : α) / (m : α)),
+      ∃ k : ℕ, k ≤ m ∧ v = (k : α) / (m : α)) ∧
+    (P : α) / (m : α) + (downsampleGo (Nat.cast : ℕ → α) m fuel xs ((P : α) / (m : α))).sum = 1 := by
+  have hm' : (0 : α) < (m : α) := by exact_mod_cast hm
+  have hm0 : (m : α) ≠ 0 := ne_of_gt hm'
+  induction fuel generalizing xs P with
+  | zero =>
+    have : xs = [] := List.length_eq_zero_iff.mp (by omega)
+    subst this
+    have e : downsampleGo (Nat.cast : ℕ → α) m 0 [] ((P : α) / (m : α)) = [] := by
+      rw [downsampleGo]
+    rw [e]
+    exact ⟨rfl, by simp, hsum⟩
+  | succ fuel ih =>
+    match xs, hfuel, hnn, hsum with
+    | [], _, _, hsum =>
+      have e : downsampleGo (Nat.cast : ℕ → α) m (fuel + 1) [] ((P : α) / (m : α)) = [] := by
+        rw [downsampleGo]
+      rw [e]
+      exact ⟨rfl, by simp, hsum⟩
+    | [p], _, _, hsum =>
+      have e : downsampleGo (Nat.cast : ℕ → α) m (fuel + 1) [p] ((P : α) / (m : α)) = [p] := by
+        rw [downsampleGo]
+      rw [e]
+      refine ⟨rfl, ?_, hsum⟩
+      intro v hv
+      have hv' : v = p := by simpa using hv
+      subst hv'
+      refine ⟨m - P, by omega, ?_⟩
+      rw [Nat.cast_sub hP, sub_div, div_self hm0]
+      simp at hsum
+      linarith
+    | p :: q :: rest, hfuel, hnn, hsum =>
+      have hp0 : 0 ≤ p := hnn p (by simp)
+      have hrnn : ∀ v ∈ q :: rest, 0 ≤ v := fun v hv => hnn v (List.mem_cons_of_mem _ hv)
+      have htot : 0 ≤ (q :: rest).sum := sum_nonneg_of_nonneg hrnn
+      have hsum' : (P : α) / (m : α) + (p + (q :: rest).sum) = 1 := by
+        simpa using hsum
+      have hK : ((m - P : ℕ) : α) / (m : α) = 1 - (P : α) / (m : α) := by
+        rw [Nat.cast_sub hP, sub_div, div_self hm0]
+      have hpK : p ≤ ((m - P : ℕ) : α) / (m : α) := by rw [hK]; linarith
+      set k := snapNum (Nat.cast : ℕ → α) m p with hk
+      have hkK : k ≤ m - P := snapNum_le_of_le m hm p hp0 (m - P) hpK
+      have hprev : (P : α) / (m : α) + (k : α) / (m : α) = ((P + k : ℕ) : α) / (m : α) := by
+        push_cast; ring
+      have hle1 : ((P + k : ℕ) : α) / (m : α) ≤ 1 := by
+        rw [div_le_one hm']; exact_mod_cast (show P + k ≤ m by omega)
+      -- the rescaled rest
+      obtain ⟨rest', hrest'⟩ : ∃ r : List α, r =
+        if 1 - ((P + k : ℕ) : α) / (m : α) ≤ 0 then (q :: rest).map (fun _ => (0 : α))
+        else (q :: rest).map (fun v => v * ((1 - ((P + k : ℕ) : α) / (m : α)) / (q :: rest).sum)) :=
+        ⟨_, rfl⟩
+      have hgo : downsampleGo (Nat.cast : ℕ → α) m (fuel + 1) (p :: q :: rest) ((P : α) / (m : α))
+          = ((k : α) / (m : α)) ::
+              downsampleGo (Nat.cast : ℕ → α) m fuel rest' (((P + k : ℕ) : α) / (m : α)) := by
+        rw [hrest', downsampleGo]
+        · simp only [lsum_eq_sum]
+          rw [← hk, hprev]
+        · simp
+      rw [hgo]
+      have hlen' : rest'.length = (q :: rest).length := by
+        rw [hrest']; split <;> simp
+      have hspec : (∀ v ∈ rest', 0 ≤ v) ∧ ((P + k : ℕ) : α) / (m : α) + rest'.sum = 1 := by
+        rw [hrest']
+        split
+        · rename_i hc
+          refine ⟨?_, ?_⟩
+          · intro v hv
+            rcases List.mem_map.mp hv with ⟨_, _, rfl⟩
+            exact le_rfl
+          · rw [sum_map_zero']; linarith
+        · rename_i hc
+          have hc' : 0 < 1 - ((P + k : ℕ) : α) / (m : α) := not_le.mp hc
+          have htne : (q :: rest).sum ≠ 0 := by
+            intro h0
+            -- then `p` is the grid point `(m-P)/m`, snapped to itself, and nothing is left
+            have hpe : p = ((m - P : ℕ) : α) / (m : α) := by rw [hK]; linarith
+            have hke : k = m - P := by rw [hk, hpe]; exact snapNum_grid m hm (m - P) (by omega)
+            have : P + k = m := by omega
+            rw [this, div_self hm0, sub_self] at hc'
+            exact lt_irrefl _ hc'
+          have htpos : 0 < (q :: rest).sum := lt_of_le_of_ne htot (Ne.symm htne)
+          refine ⟨?_, ?_⟩
+          · intro v hv
+            rcases List.mem_map.mp hv with ⟨u, hu, rfl⟩
+            exact mul_nonneg (hrnn u hu) (le_of_lt (div_pos hc' htpos))
+          · rw [sum_map_mul_const, mul_div_cancel₀ _ htne]; ring
+      obtain ⟨h1, h2, h3⟩ := ih rest' (P + k) (by rw [hlen']; simpa using hfuel) (by omega)
+        hspec.1 hspec.2
+      refine ⟨?_, ?_, ?_⟩
+      · rw [List.length_cons, h1, hlen']; rfl
+      · intro v hv
+        rcases List.mem_cons.mp hv with e | hv
+        · exact ⟨k, by omega, e⟩
+        · exact h2 v hv
+      · rw [List.sum_cons, ← add_assoc, hprev]; exact h3
+
+end Downsample
 
 end Dit.Lemmas.Aitchison
